@@ -175,6 +175,12 @@ struct Rec<'a> {
     /// class per field after the round trip: 0 = null / dangling, k > 0 = k-th distinct allocation; [-1] = error
     after: Vec<i64>,
     err: String,
+    /// payload family only: every rebuilt allocation carries the payload that was written
+    #[serde(skip_serializing_if = "Option::is_none")]
+    payload_ok: Option<bool>,
+    /// payload family only: (anchored nodes, alias nodes) in the emitted text, counted on the parser's own event stream
+    #[serde(skip_serializing_if = "Option::is_none")]
+    toks: Option<(usize, usize)>,
 }
 
 fn classes(ptrs: &[usize]) -> Vec<i64> {
@@ -355,8 +361,152 @@ struct Stats {
     cases: usize,
     records: usize,
     nontrivial: usize,
+    payload_records: usize,
     samples: Vec<serde_json::Value>,
 }
+
+
+// ---------------- payload family: the anchored node is a scalar / block scalar / sequence / map / empty collection / variant ... ----------------
+// in several parent positions and under several serializer option sets
+#[derive(Serialize, Deserialize)]
+#[serde(bound(serialize = "T: Serialize", deserialize = "T: Deserialize<'de> + 'static"))]
+enum PF<T> {
+    S(RcAnchor<T>),
+    W(RcWeakAnchor<T>),
+}
+#[derive(Serialize, Deserialize)]
+#[serde(bound(serialize = "T: Serialize", deserialize = "T: Deserialize<'de> + 'static"))]
+struct POpt<T> {
+    f0: RcAnchor<T>,
+    f1: Option<RcAnchor<T>>,
+    f2: Option<RcAnchor<T>>,
+    f3: Option<RcAnchor<T>>,
+    f4: Option<RcAnchor<T>>,
+}
+#[derive(Serialize, Deserialize, Debug, PartialEq, Clone)]
+enum PE {
+    A,
+    N(i32),
+    T(i32, String),
+    V { a: i32, b: Vec<i32> },
+}
+#[derive(Serialize, Deserialize, Debug, PartialEq, Clone)]
+struct PUnit;
+
+fn anchor_counts(text: &str) -> (usize, usize) {
+    let (evs, _) = raw_events(text);
+    (evs.iter().filter(|e| e.k != "AL" && e.a != 0).count(), evs.iter().filter(|e| e.k == "AL").count())
+}
+
+fn payload_run<T>(mk: &dyn Fn(usize) -> T, spec: &[FieldSpec], container: &str, o: serde_saphyr::SerializerOptions) -> (String, Vec<i64>, String, bool, (usize, usize))
+where
+    T: Serialize + serde::de::DeserializeOwned + PartialEq + 'static,
+{
+    let nall = spec.iter().map(|f| f.n).max().unwrap_or(0);
+    let allocs: Vec<Rc<T>> = (1..=nall).map(|n| Rc::new(mk(n))).collect();
+    let strong = |f: &FieldSpec| RcAnchor(allocs[f.n - 1].clone());
+    let fail = |t: String, e: String| (t, vec![-1], e, false, (0, 0));
+    // payload check: the allocation behind field i carries mk(spec[i].n)
+    let ser = |v: &dyn erased::Ser| -> Result<String, String> { v.to_yaml(o) };
+    match container {
+        "seq-enum" => {
+            let fields: Vec<PF<T>> = spec.iter().map(|f| match f.k.as_str() {
+                "S" => PF::S(strong(f)),
+                "W" => PF::W(RcWeakAnchor(Rc::downgrade(&allocs[f.n - 1]))),
+                _ => { let gone = Rc::new(mk(99)); let w = Rc::downgrade(&gone); drop(gone); PF::W(RcWeakAnchor(w)) }
+            }).collect();
+            let text = match ser(&fields) { Ok(t) => t, Err(e) => return fail(String::new(), e) };
+            match serde_saphyr::from_str::<Vec<PF<T>>>(&text) {
+                Ok(back) => {
+                    let ptrs: Vec<usize> = back.iter().map(|f| match f { PF::S(a) => Rc::as_ptr(&a.0) as usize, PF::W(w) => w.0.upgrade().map(|r| Rc::as_ptr(&r) as usize).unwrap_or(0) }).collect();
+                    let ok = back.iter().zip(spec).all(|(f, sp)| match f { PF::S(a) => *a.0 == mk(sp.n), PF::W(w) => w.0.upgrade().map(|r| *r == mk(sp.n)).unwrap_or(true) });
+                    let c = anchor_counts(&text);
+                    (text, classes(&ptrs), String::new(), ok, c)
+                }
+                Err(e) => fail(text, classify(&e)),
+            }
+        }
+        "seq-direct" | "flow-seq" => {
+            let fields: Vec<RcAnchor<T>> = spec.iter().map(strong).collect();
+            let text = match if container == "flow-seq" { ser(&serde_saphyr::FlowSeq(&fields)) } else { ser(&fields) } { Ok(t) => t, Err(e) => return fail(String::new(), e) };
+            match serde_saphyr::from_str::<Vec<RcAnchor<T>>>(&text) {
+                Ok(back) => {
+                    let ptrs: Vec<usize> = back.iter().map(|a| Rc::as_ptr(&a.0) as usize).collect();
+                    let ok = back.len() == spec.len() && back.iter().zip(spec).all(|(a, sp)| *a.0 == mk(sp.n));
+                    let c = anchor_counts(&text);
+                    (text, classes(&ptrs), String::new(), ok, c)
+                }
+                Err(e) => fail(text, classify(&e)),
+            }
+        }
+        "map-direct" => {
+            let m: BTreeMap<String, RcAnchor<T>> = spec.iter().enumerate().map(|(i, f)| (format!("k{i}"), strong(f))).collect();
+            let text = match ser(&m) { Ok(t) => t, Err(e) => return fail(String::new(), e) };
+            match serde_saphyr::from_str::<BTreeMap<String, RcAnchor<T>>>(&text) {
+                Ok(back) => {
+                    let ptrs: Vec<usize> = back.values().map(|a| Rc::as_ptr(&a.0) as usize).collect();
+                    let ok = back.len() == spec.len() && back.values().zip(spec).all(|(a, sp)| *a.0 == mk(sp.n));
+                    let c = anchor_counts(&text);
+                    (text, classes(&ptrs), String::new(), ok, c)
+                }
+                Err(e) => fail(text, classify(&e)),
+            }
+        }
+        _ => {
+            let mut it = spec.iter().map(strong);
+            let st = POpt { f0: it.next().unwrap(), f1: it.next(), f2: it.next(), f3: it.next(), f4: it.next() };
+            let text = match ser(&st) { Ok(t) => t, Err(e) => return fail(String::new(), e) };
+            match serde_saphyr::from_str::<POpt<T>>(&text) {
+                Ok(b) => {
+                    let v: Vec<RcAnchor<T>> = std::iter::once(b.f0).chain([b.f1, b.f2, b.f3, b.f4].into_iter().flatten()).collect();
+                    let ptrs: Vec<usize> = v.iter().map(|a| Rc::as_ptr(&a.0) as usize).collect();
+                    let ok = v.len() == spec.len() && v.iter().zip(spec).all(|(a, sp)| *a.0 == mk(sp.n));
+                    let c = anchor_counts(&text);
+                    (text, classes(&ptrs), String::new(), ok, c)
+                }
+                Err(e) => fail(text, classify(&e)),
+            }
+        }
+    }
+}
+mod erased {
+    pub trait Ser {
+        fn to_yaml(&self, o: serde_saphyr::SerializerOptions) -> Result<String, String>;
+    }
+    impl<T: serde::Serialize> Ser for T {
+        fn to_yaml(&self, o: serde_saphyr::SerializerOptions) -> Result<String, String> {
+            serde_saphyr::to_string_with_options(self, o).map_err(|e| format!("ser: {e}"))
+        }
+    }
+}
+
+/// one payload kind x container x option set for a field list (strong fields only unless the container is seq-enum)
+fn payload_case(kind: &str, spec: &[FieldSpec], container: &str, o: serde_saphyr::SerializerOptions) -> (String, Vec<i64>, String, bool, (usize, usize)) {
+    let words = |n: usize| format!("payload {n} {}", "lorem ipsum dolor ".repeat(8));
+    match kind {
+        "str" => payload_run::<String>(&|n| format!("t{n}"), spec, container, o),
+        "str-quoted" => payload_run::<String>(&|n| format!("k{n}: v # c"), spec, container, o),
+        "str-lines" => payload_run::<String>(&|n| format!("line {n}\n  second\nthird\n"), spec, container, o),
+        "str-long" => payload_run::<String>(&words, spec, container, o),
+        "str-empty" => payload_run::<String>(&|n| if n == 1 { String::new() } else { format!("e{n}") }, spec, container, o),
+        "int" => payload_run::<i64>(&|n| n as i64 * 7, spec, container, o),
+        "bool" => payload_run::<bool>(&|n| n % 2 == 0, spec, container, o),
+        "opt-some" => payload_run::<Option<i32>>(&|n| Some(n as i32), spec, container, o),
+        "seq" => payload_run::<Vec<i32>>(&|n| vec![n as i32, 2, 3], spec, container, o),
+        "seq-empty" => payload_run::<Vec<i32>>(&|n| if n == 1 { vec![] } else { vec![n as i32] }, spec, container, o),
+        "seq-nested" => payload_run::<Vec<Vec<String>>>(&|n| vec![vec![format!("a{n}"), "b".into()], vec![]], spec, container, o),
+        "map" => payload_run::<BTreeMap<String, i32>>(&|n| [("a".to_string(), n as i32), ("b".to_string(), 2)].into_iter().collect(), spec, container, o),
+        "map-empty" => payload_run::<BTreeMap<String, i32>>(&|n| if n == 1 { BTreeMap::new() } else { [("a".to_string(), n as i32)].into_iter().collect() }, spec, container, o),
+        "enum-unit" => payload_run::<PE>(&|_| PE::A, spec, container, o),
+        "enum-newtype" => payload_run::<PE>(&|n| PE::N(n as i32), spec, container, o),
+        "enum-tuple" => payload_run::<PE>(&|n| PE::T(n as i32, format!("s{n}")), spec, container, o),
+        "enum-struct" => payload_run::<PE>(&|n| PE::V { a: n as i32, b: vec![1, 2] }, spec, container, o),
+        "tuple" => payload_run::<(i32, String)>(&|n| (n as i32, format!("s{n}")), spec, container, o),
+        _ => payload_run::<Payload>(&|n| Payload { id: n, tags: vec![format!("t{n}")] }, spec, container, o),
+    }
+}
+pub const PAYLOAD_KINDS: [&str; 19] = ["str", "str-quoted", "str-lines", "str-long", "str-empty", "int", "bool", "opt-some", "seq", "seq-empty", "seq-nested", "map", "map-empty",
+                                       "enum-unit", "enum-newtype", "enum-tuple", "enum-struct", "tuple", "struct"];
 
 pub fn run(args: &Args) -> i32 {
     let out = args.req("out");
@@ -388,7 +538,39 @@ pub fn run(args: &Args) -> i32 {
             if stats.samples.len() < 3 && shared && spec.len() >= 3 && container == "seq" {
                 stats.samples.push(serde_json::json!({"fields": fields_json, "yaml": text}));
             }
-            w.put(&Rec { id: format!("g{i}-{flavor}-{container}"), kind: "graph", fields: fields_json.clone(), flavor, container, text, after, err });
+            w.put(&Rec { id: format!("g{i}-{flavor}-{container}"), kind: "graph", fields: fields_json.clone(), flavor, container, text, after, err, payload_ok: None, toks: None });
+        }
+    }
+    // payload family: every payload kind x container x option set over a rotating choice of the enumerated field lists
+    // (all of them when --payload-all 1), compared by sharing classes, payload equality and the number of anchors / aliases written
+    {
+        let osets: Vec<(String, serde_saphyr::SerializerOptions)> = crate::c13::option_sets(false).into_iter().filter(|(n, _)| !n.starts_with("i1")).collect();
+        let all = args.num("payload-all", 0) == 1;
+        let containers = ["seq-enum", "seq-direct", "map-direct", "opt-struct", "flow-seq"];
+        let mut k = 0usize;
+        for (i, spec) in specs.iter().enumerate() {
+            if spec.is_empty() { continue; }
+            let strong_only = spec.iter().all(|f| f.k == "S");
+            for (ki, kind) in PAYLOAD_KINDS.iter().enumerate() {
+                for (ci, container) in containers.iter().enumerate() {
+                    if *container != "seq-enum" && !strong_only { continue; }
+                    if *container == "opt-struct" && spec.len() > 5 { continue; }
+                    // weak fields before their strong owner are outside the documented domain
+                    k += 1;
+                    if !all && (i + ki + ci) % 7 != 0 { continue; }
+                    let picks: Vec<usize> = if all { (0..osets.len()).collect() } else { vec![0, 1 + k % (osets.len() - 1)] };
+                    for oi in picks {
+                        let (oname, o) = &osets[oi];
+                        let (sp, kd, ct, oo) = (spec.clone(), kind.to_string(), container.to_string(), *o);
+                        let r = guarded(move || payload_case(&kd, &sp, &ct, oo));
+                        let (text, after, err, ok, toks) = r.unwrap_or_else(|p| (String::new(), vec![-1], format!("PANIC:{p}"), false, (0, 0)));
+                        let fields_json = serde_json::json!(spec.iter().map(|f| serde_json::json!({"k": f.k, "n": f.n})).collect::<Vec<_>>());
+                        let cname = format!("{container}/{kind}/{oname}");
+                        w.put(&Rec { id: format!("p{i}-{cname}"), kind: "graph", fields: fields_json, flavor: "rc", container: &cname, text, after, err, payload_ok: Some(ok), toks: Some(toks) });
+                        stats.payload_records += 1;
+                    }
+                }
+            }
         }
     }
     // recursive wrappers: all chains of length <= 3 (quick) / 4 with every choice of up-pointers
@@ -421,7 +603,7 @@ pub fn run(args: &Args) -> i32 {
             let (text, after, err) = r.unwrap_or_else(|p| (String::new(), vec![-9], format!("PANIC:{p}")));
             let want: Vec<i64> = ups.iter().map(|u| if *u == usize::MAX { -1 } else { *u as i64 }).collect();
             stats.nontrivial += 1;
-            w.put(&Rec { id: format!("chain{len}-{ci}"), kind: "chain", fields: serde_json::json!(want), flavor: "rc", container: "chain", text, after, err });
+            w.put(&Rec { id: format!("chain{len}-{ci}"), kind: "chain", fields: serde_json::json!(want), flavor: "rc", container: "chain", text, after, err, payload_ok: None, toks: None });
         }
     }
     // nested sharing (DAGs of nodes holding strong / weak references to other nodes)
@@ -438,7 +620,7 @@ pub fn run(args: &Args) -> i32 {
             let r = guarded(move || dag_round_trip(&sp, &fl));
             let (text, after, err) = r.unwrap_or_else(|p| (String::new(), vec![-9], format!("PANIC:{p}")));
             if stats.samples.len() < 4 && nested_shared && flavor == "rc" && text.len() < 400 { stats.samples.push(serde_json::json!({"dag": fields_json, "yaml": text})); }
-            w.put(&Rec { id: format!("dag{i}-{flavor}"), kind: "graph", fields: fields_json.clone(), flavor, container: "dag", text, after, err });
+            w.put(&Rec { id: format!("dag{i}-{flavor}"), kind: "graph", fields: fields_json.clone(), flavor, container: "dag", text, after, err, payload_ok: None, toks: None });
         }
     }
     stats.records = w.n;
